@@ -1,2 +1,75 @@
-/-! Driver for C19 (stub: not built yet). -/
-def main : IO Unit := pure ()
+import Drivers.Proto
+import PymocaVerif.Model.CacheMeta
+/-! Driver for C19: `save_model`'s bookkeeping (`to_dict` None-ness, dependency matrix,
+    metadata matrix) from a description of the fresh variables, `load_model`'s
+    reconstruction from a description of the stored data, and the symbols the delay-duration
+    loop keeps.  Values are opaque strings; environments are point indices, the last one
+    being the all-NaN call. -/
+open Lean Drivers PymocaVerif.CacheMeta
+
+abbrev PV := Json × List String   -- pickled Python value, and its elements inside the metadata matrix
+
+def nAttr : Nat := 6
+
+def parseStrs (j : Json) : Except String (List String) := do (← j.getArr?).toList.mapM (·.getStr?)
+
+def parseAttr (j : Json) : Except String (Attr PV Nat String) := do
+  match ← getStr j "k" with
+  | "py" => pure (.py ((← getObj j "v"), (← parseStrs (← getObj j "embed"))))
+  | "mx" => do
+    let at_ ← (← getArr j "at").toList.mapM parseStrs
+    pure (.mx (← getBool j "dep") (fun e => at_.getD e []))
+  | k => throw s!"bad-attr {k}"
+
+def parseVar (j : Json) : Except String (Var PV Nat String) := do
+  let attrs ← (← getArr j "attrs").toList.mapM parseAttr
+  pure { name := ← getStr j "name", rows := ← getNat j "rows", cols := ← getNat j "cols", pyType := "", aliases := [],
+         attrs := fun k => attrs.getD k (.py (Json.null, [])) }
+
+def matJson (m : List (List String)) : Json := Json.arr (m.map jstrs).toArray
+
+def parseMat (j : Json) : Except String (List (List String)) := do (← j.getArr?).toList.mapM parseStrs
+
+def depOfCode : Nat → Dep
+  | 1 => .dependent | 2 => .independent | _ => .notMx
+
+def handle (req : Json) : Except String Json := do
+  match ← getStr req "op" with
+  | "meta.save" => do
+    let npts ← getNat req "npts"
+    let cats ← (← getArr req "cats").toList.mapM fun c => do (← getArr c "vars").toList.mapM parseVar
+    let outs := cats.map fun vars =>
+      let db := saveCat nAttr (fun (p : PV) => p.2) vars
+      Json.mkObj [
+        ("dep", Json.arr (db.dep.map fun r => Json.arr ((List.range nAttr).map fun j => ((r j).code : Json)).toArray).toArray),
+        ("none", Json.arr (db.dicts.map fun d => Json.arr ((List.range nAttr).map fun j => Json.bool (d.attrs j).isNone).toArray).toArray),
+        ("meta", Json.arr ((List.range (npts + 1)).map fun e => matJson (db.metaFn e)).toArray)]
+    pure (Json.mkObj [("ok", true), ("cats", Json.arr outs.toArray)])
+  | "meta.load" => do
+    let npts ← getNat req "npts"
+    let cats ← (← getArr req "cats").toList.mapM fun c => do
+      let dicts ← (← getArr c "dicts").toList.mapM fun d => do
+        let attrs := (← getArr d "attrs").toList
+        pure ({ name := ← getStr d "name", rows := ← getNat d "rows", cols := ← getNat d "cols", pyType := "", aliases := [],
+                attrs := fun k => match attrs.getD k Json.null with | .null => none | v => some (v, []) } : VarDict PV)
+      let dep ← (← getArr c "dep").toList.mapM fun r => do
+        let codes ← (← r.getArr?).toList.mapM (·.getNat?)
+        pure (fun (j : Nat) => depOfCode (codes.getD j 0))
+      let metas ← (← getArr c "meta").toList.mapM parseMat
+      pure ({ dicts := dicts, dep := dep, metaFn := fun e => metas.getD e [] } : CatDb PV Nat String)
+    let outs := cats.map fun c =>
+      Json.arr ((loadCat npts c).map fun lv =>
+        Json.mkObj [("name", lv.name), ("rows", lv.rows), ("cols", lv.cols), ("row0", lv.row0),
+          ("attrs", Json.arr ((List.range nAttr).map fun j =>
+            match lv.attrs j with
+            | .py v => Json.mkObj [("k", "py"), ("v", match v with | some p => p.1 | none => Json.null)]
+            | .mx g => Json.mkObj [("k", "mx"), ("at", Json.arr ((List.range npts).map fun e => jstrs (g e)).toArray)]).toArray)]).toArray
+    pure (Json.mkObj [("ok", true), ("cats", Json.arr outs.toArray)])
+  | "delay.masks" => do
+    let dds ← (← getArr req "dds").toList.mapM fun d => do (← d.getArr?).toList.mapM (·.getNat?)
+    let ms := maskSets (unionOf dds) (unionOf dds).length dds
+    pure (Json.mkObj [("ok", true), ("masks", Json.arr (ms.map fun m =>
+      match m with | none => Json.null | some t => Json.arr (t.map fun (k : Nat) => (k : Json)).toArray).toArray)])
+  | o => throw s!"unknown-op {o}"
+
+def main : IO Unit := serve handle
